@@ -113,9 +113,26 @@ def do_op(h, op):
     return h.write(op[2])
 
 
-def run_serial(kind, names, ops, order):
+def open_handles(fac, names, pre):
+    """open the handles in order; before handle i (i > 0) optionally open another handle and close it / drop it unclosed:
+    handles come and go while others stay in use, and the sharing discipline has to survive that"""
+    import gc
+    hs = []
+    for i, n in enumerate(names):
+        p = pre[i - 1] if (pre and 0 < i <= len(pre)) else None
+        if p:
+            t = fac[p[0]]()
+            if p[1] == 'close':
+                t.close()
+            del t
+            gc.collect()
+        hs.append(fac[n]())
+    return hs
+
+
+def run_serial(kind, names, ops, order, pre=None):
     base, r, fac = make_reader(kind)
-    hs = [fac[n]() for n in names]
+    hs = open_handles(fac, names, pre)
     out = [None] * len(names)
     for i in order:
         try:
@@ -125,10 +142,10 @@ def run_serial(kind, names, ops, order):
     return out, base.getvalue()
 
 
-def record(kind, names, ops):
+def record(kind, names, ops, pre=None):
     """one trace per handle operation, each run alone in its own (named) thread"""
     base, r, fac = make_reader(kind)
-    hs = [fac[n]() for n in names]
+    hs = open_handles(fac, names, pre)
     tl.REC.reset()
     tl.REC.mode = 'record'
     try:
@@ -142,10 +159,10 @@ def record(kind, names, ops):
     return traces
 
 
-def replay(kind, names, ops, order):
+def replay(kind, names, ops, order, pre=None):
     """real threads, released one event at a time in `order` (a list of thread indexes)"""
     base, r, fac = make_reader(kind)
-    hs = [fac[n]() for n in names]
+    hs = open_handles(fac, names, pre)
     out = [None] * len(names)
     gate = tl.Gate([f'T{i}' for i in order])
     tl.REC.reset()
@@ -240,7 +257,7 @@ class C15(Check):
     rule = ('for every reader type (windows on one file, RomFS, ExeFS, NCCH plain and two-key, CIA, CCI, NAND, DISA) every ordered pair '
             'and some triples of the handle kinds it hands out (sections, FullDecrypted view, merged ExeFS, nested readers\' files, '
             'NAND partitions of equal and of different key type, verified level-4 readers), one thread per handle, seek+read (and '
-            'seek+write where writable) at varied offsets: the event trace of each operation (locks taken, calls on shared '
+            'seek+write where writable) at varied offsets, with other handles opened and closed (or dropped unclosed) between the openings: the event trace of each operation (locks taken, calls on shared '
             'position-carrying objects with the locks held) is extracted from the real code by instrumentation, the lock '
             'discipline is evaluated on it by the Lean model, and where it fails the schedules that put one thread between two '
             'accesses of the other are replayed on the real code with a deterministic scheduler; non-trivial = always')
@@ -268,6 +285,9 @@ class C15(Check):
                     yield {'kind': kind, 'names': [a, b], 'ops': [['r', 1, 24], ['r', 7, 16]]}
                     if i == 0 or a in ('full', 'raw-0', 'c0.raw-exefs'):
                         yield {'kind': kind, 'names': [a, b], 'ops': [['r', 0, 1 << 20], ['r', 7, 16]]}
+                    # a third handle is closed (or dropped unclosed) after a was opened and before b is
+                    for c, how in ((b, 'close'), (a, 'del'), (hs[-1], 'close')):
+                        yield {'kind': kind, 'names': [a, b], 'ops': [['r', 1, 24], ['r', 7, 16]], 'pre': [[c, how]]}
             if kind in WRITABLE:
                 yield {'kind': kind, 'names': hs[:2], 'ops': [['w', 3, b'\xAA' * 20], ['r', 0, 32]]}
                 yield {'kind': kind, 'names': hs[:2], 'ops': [['w', 3, b'\xAA' * 20], ['w', 9, b'\xBB' * 20]]}
@@ -282,32 +302,35 @@ class C15(Check):
                 ops.append(['w', rng.randint(0, 40), rng.rbytes(rng.randint(1, 40))])
             else:
                 ops.append(['r', rng.randint(0, 60), rng.randint(1, 64)])
-        return {'kind': kind, 'names': names, 'ops': ops}
+        pre = [([rng.pick(HANDLES[kind]), rng.pick(['close', 'del'])] if rng.chance(0.5) else None) for _ in names[1:]]
+        return {'kind': kind, 'names': names, 'ops': ops, 'pre': pre}
 
     def run_case(self, case, drv):
         envsetup.install()
         kind, names = case['kind'], list(case['names'])
         ops = [list(o) for o in case['ops']]
+        pre = case.get('pre')
         # distinct handle objects even for equal names
         serials = []
         import itertools
         for order in itertools.permutations(range(len(names))):
-            serials.append(run_serial(kind, names, ops, order))
-        traces = record(kind, names, ops)
+            serials.append(run_serial(kind, names, ops, order, pre))
+        traces = record(kind, names, ops, pre)
         guard, progs, shared, reason = to_model(traces)
         verdict = drv.ask(sexp(['sched-check', [[x, l] for x, l in sorted(guard.items())], progs]))
         real = 'disciplined' if (verdict == 'ok' and reason is None) else 'undisciplined'
         model = 'disciplined'
         mon = []
         key = None
-        info = {'kind:' + kind: 1, 'verdict:' + real: 1, 'shared:%d' % len(shared): 1}
+        info = {'kind:' + kind: 1, 'verdict:' + real: 1, 'shared:%d' % len(shared): 1,
+                'lifecycle:' + ('/'.join(sorted({p[1] for p in pre if p})) if pre and any(pre) else 'none'): 1}
         if real != 'disciplined':
             tried = 0
             for order in candidate_schedules(traces, shared):
                 tried += 1
                 if tried > 12:
                     break
-                out, final, hung = replay(kind, names, ops, order)
+                out, final, hung = replay(kind, names, ops, order, pre)
                 if hung:
                     mon.append(f'{kind} {names}: replayed schedule does not terminate (deadlock)')
                     key = f'{kind}:{"/".join(sorted(set(names)))}:deadlock'
@@ -315,7 +338,7 @@ class C15(Check):
                 if not any(out == so and final == sf for so, sf in serials):
                     which = [i for i in range(len(names)) if all(out[i] != so[i] for so, _ in serials)]
                     what = 'a write landed elsewhere' if not which else f'handle {names[which[0]]} read bytes no serial run returns'
-                    mon.append(f'{kind} {names}: under the schedule {compress(order)} {what} ({reason or verdict})')
+                    mon.append(f'{kind} {names} (handles closed/dropped in between: {pre}): under the schedule {compress(order)} {what} ({reason or verdict})')
                     key = f'{kind}:{"/".join(sorted(set(names)))}'
                     break
             info['replays:%d' % min(tried, 12)] = 1
